@@ -11,6 +11,8 @@ use xeh::state::verif::VerifDump;
 pub mod gen;
 pub mod prog;
 pub mod rev;
+pub mod drive;
+pub mod limits;
 
 // ------------------------------------------------------------------ PRNG (splitmix64)
 #[derive(Clone)]
